@@ -73,6 +73,30 @@ func GenConf(rng *rand.Rand, wf bool) plugin.Conf {
 			c.Pools = append(c.Pools, p)
 		}
 	}
+	// pools WITHOUT addresses (`"ips": []`): valid, own nothing, but occupy a slot of the pool table and contribute their node
+	// subnets to NodeSubnet(nodeIP).  Gateways are chosen so that they sort before / between / after the other pools.
+	if rng.Intn(100) < 30 {
+		ne := 1 + rng.Intn(2)
+		for e := 0; e < ne; e++ {
+			var gw uint32
+			switch rng.Intn(3) {
+			case 0:
+				gw = ip4(10, 5, uint32(e), 1) // before every other pool
+			case 1:
+				gw = ip4(10, uint32(10+rng.Intn(nsub)), 0, uint32(100+e)) // inside a used pod subnet: between .1 and .254
+			default:
+				gw = ip4(10, 200, uint32(e), 1) // after every other pool
+			}
+			p := plugin.Pool{Gateway: gw, Bits: 24, Vlan: rng.Intn(3)}
+			k := 1 + rng.Intn(2)
+			for x, idx := range rng.Perm(len(subnetPalette)) {
+				if x < k {
+					p.NodeSubnets = append(p.NodeSubnets, subnetPalette[idx])
+				}
+			}
+			c.Pools = append(c.Pools, p)
+		}
+	}
 	if !wf {
 		i := rng.Intn(len(c.Pools))
 		c.Pools[i].NodeSubnets = append(c.Pools[i].NodeSubnets, overlapSubnet)
